@@ -227,12 +227,15 @@ type diffSpec struct {
 	fixedStyles bool                     // run the table once per import style
 	noTraceOwner bool                    // o != r is not a violation of this property (only counted)
 	onCompileFail func(rs *runState, p *Program, f *stageFailure, b *batch) bool // true = handled
+	multiFile    bool // spread the programs of a batch over 1-3 files with different import styles
+	testFiles    bool // put some programs into a _test.go file
 	onlyCalls    bool // drive entries are not executed (the oracle side cannot run generators: C13's source package)
 }
 
 type drawnBatch struct {
 	progs []*Program
 	style importStyle
+	files int
 }
 
 func (rs *runState) drawBatches(spec *diffSpec) ([]drawnBatch, error) {
@@ -247,12 +250,18 @@ func (rs *runState) drawBatches(spec *diffSpec) ([]drawnBatch, error) {
 		err = drawAll(rs.seed, spec.batches, func(t *rapid.T) {
 		var db drawnBatch
 		db.style = styles[rapid.IntRange(0, len(styles)-1).Draw(t, "style")]
+		if spec.multiFile {
+			db.files = rapid.IntRange(1, 3).Draw(t, "files")
+		}
 		for i := 0; i < spec.batchSize; i++ {
 			prof := spec.profiles[rapid.IntRange(0, len(spec.profiles)-1).Draw(t, "profile")]
 			n++
 			p := genProgram(t, prof, fmt.Sprintf("P%05d", n))
 			if spec.mutate != nil {
 				spec.mutate(t, p)
+			}
+			if spec.testFiles && rapid.IntRange(0, 5).Draw(t, "intest") == 0 {
+				p.TestFile = true // lives in p_test.go: compiled and built, not linked into the runner
 			}
 			db.progs = append(db.progs, p)
 		}
@@ -477,6 +486,7 @@ func (rs *runState) runDiff(spec *diffSpec) {
 					opts := spec.opts
 					opts.style = j.db.style
 					opts.onlyCalls = spec.onlyCalls
+					opts.files = j.db.files
 					res, b := rs.tools.runBatch(j.db.progs, opts)
 					if b != nil {
 						defer b.cleanup()
@@ -495,7 +505,7 @@ func (rs *runState) runDiff(spec *diffSpec) {
 							h := len(j.db.progs) / 2
 							for _, part := range [][]*Program{j.db.progs[:h], j.db.progs[h:]} {
 								pending.Add(1)
-								jobs <- job{db: drawnBatch{progs: part, style: j.db.style}, single: len(part) == 1}
+								jobs <- job{db: drawnBatch{progs: part, style: j.db.style, files: j.db.files}, single: len(part) == 1}
 							}
 							return
 						}
@@ -512,7 +522,7 @@ func (rs *runState) runDiff(spec *diffSpec) {
 							h := len(j.db.progs) / 2
 							for _, part := range [][]*Program{j.db.progs[:h], j.db.progs[h:]} {
 								pending.Add(1)
-								jobs <- job{db: drawnBatch{progs: part, style: j.db.style}, single: len(part) == 1}
+								jobs <- job{db: drawnBatch{progs: part, style: j.db.style, files: j.db.files}, single: len(part) == 1}
 							}
 							return
 						}
